@@ -14,7 +14,9 @@
      expressions that do not enumerate object members — multi-select hashes and `let`s of ANY size allowed — the
      outcome is never `nondet` and a value contains no map-ordered array. `sort_definite_of_tieFree`,
      `sort_definite_strings`: `sort` is definite on strings and on tie-free numbers.
-  3. **COUNTEREXAMPLE (model)**: `widen_misses_category`: the model's error set can miss a category that a run reports.
+  3. **FIXED GAP (model)**: `widen_unsettled_nondet` (formerly the counterexample `widen_misses_category`): `widen` used
+     to ignore elements whose outcome is `nondet`, so the model's error set could miss a category that a run reports;
+     it now answers `nondet` there.
   4. **Oracle semantics** `ievalO π` (Jmes/Proofs/C15BOracle.lean): Go's map iteration orders are a parameter `π`.
      * `oracle_covers_every_order`: every permutation of an object's members is chosen by some oracle.
      * `oracle_strict` (whole evaluator, no object enumeration, hashes and `let`s of any size):
@@ -24,7 +26,7 @@
        `ieval = .ok r → ∀ π, ∃ r', ievalO π = .ok r' ∧ PermEnum r r'`; `oracle_enum_definite`: if `r` contains no
        map-ordered array then `r' = r`.
      * `projectArray_err_any_order`, `projectObject_err_any_order`: the error half for projections over a map-ordered
-       array, under the side condition that no element outcome is `nondet`/`panic`/`unmodelled` (see 3).
+       array (an error outcome of the model implies that every element outcome is a value or an error, see 3).
 -/
 import Jmes.Proofs.C15BConcMainLemmas
 namespace Jmes.C15B
@@ -221,7 +223,7 @@ example : sortArray (.arr .plain [C13B.two, C13B.one]) ≠ .nondet :=
       simp [C13B.valOf, C13B.toDecimal_one, C13B.toDecimal_two, c1, c2])).1
 
 
-/-! ## 3. COUNTEREXAMPLE: `widen` ignores elements whose outcome is `nondet` -/
+/-! ## 3. FIXED GAP: `widen` used to ignore elements whose outcome is `nondet`; now it answers `nondet` -/
 
 /-- the document `{"p": "str", "q": {"a": 1, "b": 1.5}}` -/
 def wdoc : Val := .obj [([0x70], .str [0x73, 0x74, 0x72]),
@@ -236,14 +238,20 @@ def reverseOracle : Oracle where
   outs := fun _ l => l.reverse
   outs_perm := fun _ l => List.reverse_perm l
 
-/-- **COUNTEREXAMPLE (a gap of the model, not of the Go code).** The model answers `.err [invalidType]`: the element
-    `"str"` fails with invalid-type, and the element `{"a": 1, "b": 1.5}`, whose outcome is `nondet`
-    (`values(@)[0]`), contributes nothing to the widened set. The run that visits `q` before `p` and `b` before `a`
-    reports invalid-VALUE (`1.5` is not an integer) — confirmed against the Go code (47 of 3000 runs). So
-    "`ieval = .err cs → the run's category ∈ cs`" is false as long as `widen` ignores `nondet` elements. -/
-theorem widen_misses_category :
-    evaluate wprog wdoc = .err [Cat.invalidType] ∧ evaluateO reverseOracle wprog wdoc = .err [Cat.invalidValue] := by
+/-- **FIXED GAP (formerly the counterexample `widen_misses_category`).** The element `"str"` fails with
+    invalid-type, and the outcome of the element `{"a": 1, "b": 1.5}` is `nondet` (`values(@)[0]`). The run that
+    visits `q` before `p` and `b` before `a` reports invalid-VALUE (`1.5` is not an integer) — confirmed against the Go
+    code (47 of 3000 runs). `widen` used to answer `.err [invalidType]` here (the `nondet` element contributed nothing
+    to the widened set), which made "`ieval = .err cs → the run's category ∈ cs`" false. Now `widen` answers `nondet`
+    as soon as some element of a map-ordered array has an outcome that is not a value or an error. -/
+theorem widen_unsettled_nondet :
+    evaluate wprog wdoc = .nondet ∧ evaluateO reverseOracle wprog wdoc = .err [Cat.invalidValue] := by
   exact ⟨rfl, rfl⟩
+
+/-- in general: an error outcome of `widen` over a map-ordered array means every element outcome is settled -/
+theorem widen_err_settled {α} {t : ATag} {xs : List Val} {f : Val → Res Val} {extra cs0 cs : List Cat}
+    (he : enum2 t xs = true) (h : widen (α := α) t xs [f] extra (.err cs0) = .err cs) :
+    ∀ x ∈ xs, (f x).Settled := (widen_enum_mem he h).2.2
 
 
 /-! ## 4. the oracle semantics -/
@@ -407,23 +415,23 @@ example (π : Oracle) : evaluateO π pSortKeys ab = .ok (.arr .plain [.str [0x61
 example (π : Oracle) : evaluateO π pLenStar ab = .ok (.num (.int .i64 2)) :=
   oracle_enum_definite (d := ab) (n := pLenStar) (by decide) (by decide) rfl (by decide) π
 
-/-! ### the error half for the object wildcard, under the side condition of section 3 -/
+/-! ### the error half for the object wildcard -/
 
-/-- **`*.c` with a body `c` that does not itself enumerate objects.** If the model reports the error set `cs` and no
-    member's outcome is `panic`/`unmodelled` (in this class it is never `nondet`), then every run — the members visited
-    in any order — reports one category, and it is in `cs`.
-    (The side condition `hset` is what `widen` does not check, see `widen_misses_category`; once `widen` answers
-    `nondet`/`panic`/`unmodelled` when some element does, `h` implies `hset`.) -/
+/-- **`*.c` with a body `c` that does not itself enumerate objects.** If the model reports the error set `cs`, then
+    every run — the members visited in any order — reports one category, and it is in `cs`.
+    (No side condition on the member outcomes is needed: `widen` answers `nondet` when some member's outcome is
+    `nondet`/`panic`/`unmodelled`, see `widen_unsettled_nondet`, so `h` implies that every member outcome is a value or
+    an error.) -/
 theorem star_err_any_order {root : Val} {env : Env} {kvs : List (Bytes × Val)} {c : INode}
     (hroot : root.NoEnum = true) (hobj : (Val.obj kvs).NoEnum = true) (henv : Env.NoEnum env = true)
-    (hc : StrictOK c = true) (hset : ∀ kv ∈ kvs, (ieval root c kv.2 env).Settled) {cs : List Cat}
+    (hc : StrictOK c = true) {cs : List Cat}
     (h : ieval root (.projectObjectCurrent c) (.obj kvs) env = .err cs) :
     ∀ π : Oracle, ∃ c' ∈ cs, ievalO π root (.projectObjectCurrent c) (.obj kvs) env = .err [c'] := by
   intro π
   simp only [ieval] at h
   simp only [ievalO]
   have hkv : Val.GoodF true kvs = true := good_obj.mp hobj
-  refine projectObject_err_any_order (π.sub 1) (conc_refl _ hobj) ?_ hset h
+  refine projectObject_err_any_order (π.sub 1) (conc_refl _ hobj) ?_ h
   intro i x x' hm hx
   obtain ⟨kv, hkvm, rfl⟩ := List.mem_map.mp hm
   have hg : kv.2.Good true = true := goodF_iff.mp hkv kv hkvm
@@ -433,19 +441,16 @@ theorem star_err_any_order {root : Val} {env : Env} {kvs : List (Bytes × Val)} 
 
 /-- the same for `[*]` over an array that may be map-ordered, with an arbitrary sub-expression relation -/
 theorem projection_err_any_order {f : Val → Res Val} {g : Nat → Val → Res Val} {t : ATag} {xs : List Val} {v' : Val}
-    (hv : PermEnum (.arr t xs) v') (hf : SimFnX xs f g) (hset : ∀ x ∈ xs, (f x).Settled) {cs : List Cat}
+    (hv : PermEnum (.arr t xs) v') (hf : SimFnX xs f g) {cs : List Cat}
     (h : projectArray f (.arr t xs) = .err cs) : ∃ c ∈ cs, projectArrayO g v' = .err [c] :=
-  projectArray_err_any_order hv hf hset h
+  projectArray_err_any_order hv hf h
 
 /-- `*.abs(@)` on `{"a": "x", "b": true}`: both members fail with invalid-type; every run reports it -/
 def pStarAbs : INode := .projectObjectCurrent (.call .abs [.current])
 example (π : Oracle) : ∃ c' ∈ [Cat.invalidType],
     ievalO π .null pStarAbs (.obj [([0x61], .str [0x78]), ([0x62], .bool true)]) [] = .err [c'] :=
   star_err_any_order (root := .null) (env := []) (c := .call .abs [.current]) (by decide) (by decide) (by decide)
-    (by decide) (by
-      intro kv hkv
-      simp only [List.mem_cons, List.not_mem_nil, or_false] at hkv
-      rcases hkv with rfl | rfl <;> exact trivial) rfl π
+    (by decide) rfl π
 
 /-! ### at the level of `Search` -/
 
